@@ -308,3 +308,69 @@ func VC15StdLog() {
 	vrt.Observe("caller-fn", e.Caller.Function)
 	vrt.Assert("caller-is-the-line-that-called-the-standard-logger", vCallerMatches(e, w))
 }
+
+// ---- logging from a deferred function, while a panic unwinds and at an ordinary return
+
+func vBoom() { panic("boom") }
+
+// vDeferredLog is the deferred function: it logs (after recovering, if there is something to recover).
+func vDeferredLog(l *Logger, front int, doRecover bool, w *vWhereInfo) {
+	if doRecover {
+		_ = recover()
+	}
+	switch front {
+	case 0:
+		*w = vWhere(); l.Error("m")
+	case 1:
+		*w = vWhere(); l.Sugar().Errorw("m", "k", 1)
+	case 2:
+		*w = vWhere(); l.Info("m", Stack("s"))
+	}
+}
+
+func vDeferSite(n int, l *Logger, front int, panics bool, w *vWhereInfo) {
+	defer vDeferredLog(l, front, panics, w)
+	if panics {
+		vNest(n, vBoom)
+	}
+}
+
+//verif: prop=C15 bounds="logging from a deferred function, at an ordinary return and while a panic raised n+2 frames further in (n in 0..2) unwinds; Logger.Error, Sugar.Errorw and the zap.Stack field: caller = the deferred function's line, and the stack lists the whole chain: the deferred function, the panicking function and every frame between it and the deferring function, and the outermost user frame; modelled runtime (the frames a panic in flight leaves on the stack are spliced back in)"
+func VC15Deferred() {
+	rec := vNewCore("rec", zapcore.DebugLevel)
+	l := New(rec, AddCaller(), AddStacktrace(zapcore.ErrorLevel))
+	front := vrt.Choice("front", 3)
+	panics := vrt.Choice("panics", 2) == 1
+	n := 0
+	if panics {
+		n = vrt.IntRange("depth", 0, 2)
+	}
+	var w vWhereInfo
+	vDeferSite(n, l, front, panics, &w)
+	if len(rec.st.writes) != 1 {
+		vrt.Fail("one-entry")
+		return
+	}
+	e := rec.st.writes[0].ent
+	vrt.Assert("caller-is-the-deferred-functions-line", vCallerMatches(e, w))
+	stack := e.Stack
+	if front == 2 {
+		stack = ""
+		for _, f := range rec.st.writes[0].fields {
+			if f.Key == "s" {
+				stack = f.String
+			}
+		}
+	}
+	fns, _ := vStackFrames(stack)
+	vrt.Observe("helper-frames", vCountOf(fns, "go.uber.org/zap.vNest"))
+	vrt.Observe("boom", vHas(fns, "go.uber.org/zap.vBoom"))
+	vrt.Assert("stack-starts-at-the-call-site", len(fns) > 0 && fns[0] == w.fn)
+	if panics {
+		vrt.Assert("panicking-function-listed", vHas(fns, "go.uber.org/zap.vBoom"))
+		vrt.Assert("every-frame-between-panic-and-defer-listed", vCountOf(fns, "go.uber.org/zap.vNest") == n+1)
+	}
+	vrt.Assert("deferring-function-listed", vHas(fns, "go.uber.org/zap.vDeferSite"))
+	vrt.Assert("stack-reaches-the-outermost-user-frame", vHas(fns, "go.uber.org/zap.VC15Deferred"))
+	vrt.Cover("done")
+}
